@@ -218,6 +218,7 @@ func (w *World) projectOne() map[string]interface{} {
 	out["wl"] = wlm
 	out["br"] = brm
 	out["net"] = w.projectNet()
+	out["tr"] = w.projectTR()
 	out["mem"] = w.projectMem()
 	origOk, _ := w.UserOwnedEqual()
 	rs := append([]int{}, w.Ghost.ReadySteps...)
@@ -411,6 +412,28 @@ func ingressShare(a map[string]string) (int, string) {
 		}
 	}
 	return weight, match
+}
+
+// projectTR: the stand-alone TrafficRouting object (scenarios with trRef)
+func (w *World) projectTR() map[string]interface{} {
+	out := map[string]interface{}{"used": w.Cfg.TRRef, "exists": false, "phase": "", "finalizer": false, "prog": 0, "deleting": false, "obsOk": false}
+	tr := &v1alpha1.TrafficRouting{}
+	if !w.Cfg.TRRef || !w.S.Load(w.NS, TRName, tr) {
+		return out
+	}
+	out["exists"] = true
+	out["phase"] = string(tr.Status.Phase)                                           // TrafficRouting.status.phase
+	out["finalizer"] = controllerutil.ContainsFinalizer(tr, util.TrafficRoutingFinalizer) // the controller's own finalizer
+	n := 0
+	for _, f := range tr.Finalizers {
+		if strings.Contains(f, v1alpha1.ProgressingRolloutFinalizerPrefix) {
+			n++
+		}
+	}
+	out["prog"] = n // finalizers of Rollouts that are progressing with this TrafficRouting
+	out["deleting"] = !tr.DeletionTimestamp.IsZero()
+	out["obsOk"] = tr.Status.ObservedGeneration == tr.Generation
+	return out
 }
 
 func (w *World) projectMem() map[string]interface{} {
